@@ -292,8 +292,8 @@ class Builtins:
             out = SList(None, length=pos[0].length, elem=pos[0].elem, fresh=True, kind="tuple")
             out.ghost = dict(pos[0].ghost)
             return out
-        if isinstance(pos[0], SOpaque):
-            return SOpaque("tuple", self.cx.const("tup", z3.IntSort()))
+        if isinstance(pos[0], SOpaque) and pos[0].ident is not None:
+            return SOpaque("tuple", z3.Function("tuple_of", z3.IntSort(), z3.IntSort())(pos[0].ident))
         raise Unsupported("tuple() of abstract value")
 
     def f_dict(self, pos, kw, fr):
